@@ -62,6 +62,10 @@ Definition mem (s : string) (l : list string) : bool := existsb (String.eqb s) l
 Definition config_keeps_reordering (bases : list string) : bool :=
   forallb (fun b => mem b allowed_permutable) bases.
 
+(* _tags_with_base: tag == base_tag or tag.startswith(base_tag + "_") *)
+Definition tag_has_base (tag base : string) : bool :=
+  String.eqb tag base || prefix (base ++ "_") tag.
+
 (* apply an index tensor to one stored value (permute_string / permute_tensor by ndim) *)
 Definition permute_payload (q : list nat) (p : payload) : res payload :=
   match p with
@@ -74,9 +78,11 @@ Definition permute_payload (q : list nat) (p : payload) : res payload :=
 Section Results.
 Variable v : variant.
 
-(* does permute_bitstrings / permute_occupations_and_correlations pick this stored result? *)
+(* does permute_bitstrings / permute_occupations_and_correlations pick this stored result?
+   fixed: _tags_with_base, a rule on the tag STRING only (tag == base or tag.startswith(base + "_"));
+   legacy: the tag must be exactly one of the three bare tags *)
 Definition selected (e : entry) : bool :=
-  if v_tags v then mem (e_base e) per_atom_tags else mem (e_tag e) per_atom_tags.
+  if v_tags v then existsb (tag_has_base (e_tag e)) per_atom_tags else mem (e_tag e) per_atom_tags.
 
 Definition unpermute_entry (q : list nat) (e : entry) : res entry :=
   if selected e then
